@@ -571,6 +571,11 @@ class Watch(object):
                 self.target = L[op[1]].taxon_namespace
                 self.mode = "read"
                 self.n0 = len(L[op[1]]._trees)
+            elif k == "dsread":
+                ds = w.dss[op[1]]
+                self.target = ds.attached_taxon_namespace
+                self.mode = "dsread"
+                self.n0 = (len(ds.tree_lists), len(ds.char_matrices))
         except (IndexError, KeyError):
             self.mode = None
         self.dup_ci = False
@@ -600,6 +605,34 @@ class Watch(object):
         w, op = self.w, self.op
         pairs = []   # (old label, new taxon or None, old taxon or None)
         out = []
+        if self.mode == "dsread":
+            # the document's blocks arrive in the data set, bound to one namespace, carrying the document's labels
+            ds = w.dss[op[1]]
+            tls, ms = list(ds.tree_lists)[self.n0[0]:], list(ds.char_matrices)[self.n0[1]:]
+            if len(tls) != (0 if op[4] is None else 1) or len(ms) != (0 if op[3] is None else 1):
+                return [("b", "data set gained %d tree lists and %d matrices from a document with %d and %d blocks" % (
+                    len(tls), len(ms), 0 if op[4] is None else 1, 0 if op[3] is None else 1))]
+            target = self.target
+            for x in tls + ms:
+                if target is None:
+                    target = x.taxon_namespace
+                if x.taxon_namespace is not target:
+                    out.append(("a-dataset", "components read from one document (one TAXA block) are bound to different namespaces"))
+            if target is None:
+                return out
+            kf = keyf(target.is_case_sensitive)
+            for m in ms:
+                if sorted(kf(x.label) for x in m._taxon_sequence_map) != sorted({kf(s) for s in op[3]}):
+                    out.append(("b", "matrix read from rows %r carries labels %r" % (op[3], sorted(x.label for x in m._taxon_sequence_map))))
+            for tl in tls:
+                if len(tl._trees) != len(op[4]):
+                    out.append(("b", "tree block with %d trees delivered %d" % (len(op[4]), len(tl._trees))))
+                    continue
+                for t, labs in zip(tl._trees, op[4]):
+                    got = [nd.taxon for nd in nodes_preorder(t) if not nd._child_nodes]
+                    if [None if x is None else kf(x.label) for x in got] != [kf(s) for s in labs]:
+                        out.append(("b", "tree read from labels %r carries %r" % (labs, [None if x is None else x.label for x in got])))
+            return out
         if self.mode == "read":
             tl = w.lists[op[1]]
             new = tl._trees[self.n0:]
@@ -1074,7 +1107,7 @@ def run(ctx):
     rng = ctx.rng
     # the budget is counted from here (waiting for the shared lake build lock must not eat the exploration time)
     ctx.t0 = __import__("time").time()
-    ctx.set_budget(38, 560)
+    ctx.set_budget(38, 330)
     pending = []
     n = ctx.pick(3500, 60000)
     for i in range(n):
@@ -1171,7 +1204,8 @@ def exhaustive(ctx, dp, pending):
     ops = small_ops()
     count = 0
     depth = 3
-    t_end = ctx.budget_s + 240
+    t_end = 760
+    cut = [False]
 
     def rec(prefix, d):
         nonlocal count
@@ -1179,6 +1213,7 @@ def exhaustive(ctx, dp, pending):
             return
         for op in ops:
             if (ctx.t0 + t_end) < __import__("time").time():
+                cut[0] = True
                 return
             w = World(dp)
             for o in SMALL_SETUP + prefix:
@@ -1199,7 +1234,9 @@ def exhaustive(ctx, dp, pending):
                 rec(hist, d - 1)
     for d in range(1, depth + 1):
         rec([], d)
-    ctx.extra["exhaustive_small_scope"] = "%d histories: every in-domain sequence of <= %d ops from %d instantiated ops over a fixed world (3 namespaces, 2 trees, 2 lists, 1 matrix, 1 data set)" % (count, depth, len(ops))
+    ctx.extra["exhaustive_small_scope"] = ("%d histories: every in-domain sequence of <= %d ops from %d instantiated ops over a fixed world "
+                                           "(3 namespaces, 2 trees, 2 lists, 1 matrix, 1 data set)%s" % (
+                                               count, depth, len(ops), "; depth %d cut short by the time cap" % depth if cut[0] else ""))
 
 
 def replay(ctx, rec):
